@@ -98,6 +98,8 @@ func init() {
 				cases = append(cases, Case{ID: "parse valid " + strings.ReplaceAll(t, "\n", "\\n"), Pkg: "internal/parser", Fn: "ZZC14ParseText", Args: []string{t, "1"}, Tag: "corpus-parse (native parser, by-product)"})
 			}
 			invalid := []string{"send", "send [USD 1] (", "vars {", "send [USD 1] ( source = @a destination = )", "} } }", "send [USD 1] ( source = @a destination = @b ) )", "set_tx_meta(", "vars { number }", "@", "$", "[USD", "send [USD *] ( source = destination = @b )", "é", "send [USD 1] ( source = @a\ndestination = @b", "\"unterminated"}
+			v0 := validTemplates[0]
+			invalid = append(invalid, ")"+v0, "#"+v0, "é "+v0, "=\n", ")", "#", v0+" )", v0+"\n#", "\n)"+v0, "]"+v0, "1"+v0)
 			for _, t := range invalid {
 				cases = append(cases, Case{ID: "parse invalid " + strings.ReplaceAll(t, "\n", "\\n"), Pkg: "internal/parser", Fn: "ZZC14ParseText", Args: []string{t, "0"}, Tag: "corpus-parse (native parser, by-product)"})
 			}
